@@ -30,6 +30,7 @@ type pinnedTable struct {
 	inl   map[string]bool     // function key → was expanded as an expression at pin time
 	funcs map[string]string   // function key → signature
 	types map[string][]string // type key → "name:type" per field, in order
+	calls map[string][]string // function key → sorted simple names of its static library callees
 }
 
 var pinned *pinnedTable
@@ -38,7 +39,7 @@ func loadPinned() *pinnedTable {
 	if pinned != nil {
 		return pinned
 	}
-	t := &pinnedTable{funcs: map[string]string{}, types: map[string][]string{}, inl: map[string]bool{}}
+	t := &pinnedTable{funcs: map[string]string{}, types: map[string][]string{}, inl: map[string]bool{}, calls: map[string][]string{}}
 	for _, l := range strings.Split(pinnedSymbols, "\n") {
 		parts := strings.SplitN(strings.TrimSpace(l), "\t", 4)
 		if len(parts) < 2 {
@@ -52,6 +53,12 @@ func loadPinned() *pinnedTable {
 			}
 			t.funcs[parts[1]] = sig
 			t.inl[parts[1]] = len(parts) == 4 && parts[3] == "inl"
+		case "calls":
+			if len(parts) >= 3 && parts[2] != "" {
+				t.calls[parts[1]] = strings.Split(parts[2], ",")
+			} else {
+				t.calls[parts[1]] = nil
+			}
 		case "type":
 			var fs []string
 			if len(parts) == 3 && parts[2] != "" {
@@ -119,6 +126,7 @@ func (p *Prog) symbolLines() []string {
 				}
 			}
 			out = append(out, "func\t"+rawFuncKey(p, fn)+"\t"+p.sigString(fn)+"\t"+flag)
+			out = append(out, "calls\t"+rawFuncKey(p, fn)+"\t"+strings.Join(p.calleeNames(fn), ","))
 		}
 	}
 	for _, pk := range p.Lib {
@@ -179,6 +187,7 @@ func (p *Prog) align() {
 			fresh[owner(k)+"\t"+p.sigString(fn)] = append(fresh[owner(k)+"\t"+p.sigString(fn)], k)
 		}
 	}
+	famCalls := map[string][]string{}
 	for slot, ms := range missing {
 		fs := fresh[slot]
 		if len(ms) > 1 && len(fs) == 1 {
@@ -195,11 +204,44 @@ func (p *Prog) align() {
 					}
 				}
 				if all && entry != "" {
+					// what the merged function must resemble: everything the folded members called outside the family
+					u := map[string]bool{}
+					for _, m := range ms {
+						for _, cn := range pt.calls[m] {
+							if !strings.HasPrefix(cn, fam.prefix) {
+								u[cn] = true
+							}
+						}
+					}
+					var us []string
+					for cn := range u {
+						us = append(us, cn)
+					}
+					sort.Strings(us)
+					famCalls[entry] = us
 					ms = []string{entry}
 				}
 			}
 		}
 		if len(ms) == 1 && len(fs) == 1 {
+			// the candidate must also do roughly what the pinned function did: at least half of the library functions
+			// either of them calls are called by both (a new helper that merely happens to have the vanished function's
+			// signature — `heapify()` next to a `bubbleUp()` that became `bubbleUpIndex(i)` — is not it)
+			want, have := pt.calls[ms[0]], p.calleeNames(cur[fs[0]])
+			if fc, ok := famCalls[ms[0]]; ok {
+				want = fc
+				var h2 []string
+				for _, cn := range have {
+					if cn != cur[fs[0]].Name() {
+						h2 = append(h2, cn)
+					}
+				}
+				have = h2
+			}
+			if !similarCallees(want, have) {
+				aliasNotes = append(aliasNotes, fmt.Sprintf("function %s has the signature of the vanished pinned %s but calls different functions (%v vs %v): not aligned", fs[0], ms[0], have, want))
+				continue
+			}
 			aliasFunc[cur[fs[0]]] = simple(ms[0])
 			aliasNotes = append(aliasNotes, fmt.Sprintf("function %s is the pinned %s (same receiver and signature; the pinned name is gone)", fs[0], ms[0]))
 		}
@@ -353,4 +395,54 @@ func anchorFn(p *Prog, tk, name string) *ssa.Function {
 		return ms[d]
 	}
 	return nil
+}
+
+// calleeNames: sorted simple names of the static library callees of fn (closures included).
+func (p *Prog) calleeNames(fn *ssa.Function) []string {
+	set := map[string]bool{}
+	var walk func(f *ssa.Function, depth int)
+	walk = func(f *ssa.Function, depth int) {
+		for _, c := range allCalls(f) {
+			if cal := StaticCallee(c.Common()); cal != nil && p.IsLib(cal) && cal.Synthetic == "" {
+				o := cal
+				if cal.Origin() != nil {
+					o = cal.Origin()
+				}
+				if o.Parent() == nil {
+					set[o.Name()] = true
+				}
+			}
+		}
+		if depth < 3 {
+			for _, an := range f.AnonFuncs {
+				walk(an, depth+1)
+			}
+		}
+	}
+	walk(fn, 0)
+	var out []string
+	for k := range set {
+		out = append(out, k)
+	}
+	sort.Strings(out)
+	return out
+}
+
+func similarCallees(a, b []string) bool {
+	if len(a) == 0 && len(b) == 0 {
+		return true
+	}
+	in := map[string]bool{}
+	for _, x := range a {
+		in[x] = true
+	}
+	both, union := 0, len(a)
+	for _, x := range b {
+		if in[x] {
+			both++
+		} else {
+			union++
+		}
+	}
+	return 2*both >= union
 }
